@@ -40,9 +40,13 @@ CLAIMED = {
              "database or the outer tries/counts (batch_ops_leave_base, via opSetDel_base), leaving by an exception restores the "
              "world exactly (abort_restores_world), a failing commit write leaves outer roots/trees/counts unchanged with a prefix "
              "of the buffered writes applied (commit_failure_keeps_outer, commitLoop_fail_prefix), a normal exit adopts the batch "
-             "root (commit_adopts_root). That the committed database is complete and free of intermediate-only nodes is tied by "
-             "the exact-database correspondence and the oracle, not yet proved. Tie: exact db, root and counts after every step, "
-             "every exit kind and position.",
+             "root (commit_adopts_root). For a PRUNING outer trie the whole block is proved exact: entering the block establishes "
+             "the exact-pruning invariant over what the block will commit (batch_begin_invariant), every set/delete on the batch trie "
+             "preserves it and never raises (batch_op_invariant), and a normal exit gives the outer trie the batch's tree and root "
+             "with counts = true references and database = exactly the live nodes (batch_commit_exact, commit_produces_view). For a "
+             "NON-pruning outer trie, that the committed database is complete and free of intermediate-only nodes (clamped-counter "
+             "lemma) is tied by the exact-database correspondence and the oracle, not proved. Tie: exact db, root and counts after "
+             "every step, every exit kind and position.",
         technique="Lean 4 proof (invariants of the world executor) + correspondence check with fault injection",
         design_ref="6/C05"),
     "C06": dict(
@@ -53,9 +57,11 @@ CLAIMED = {
              "hashed subtrees with that hash below the root + 1 for the root, and the database contains a key iff that number is "
              "positive' holds initially and is re-established by every set/delete through _prune_on_success/_set_db_value/"
              "_set_root_node/_complete_pruning, which never raise on such a state (prune_invariant_step, reach_invariant over whole "
-             "histories); regenerate_ref_count computes exactly these numbers (regenerate_is_true_count, keccak_embedded). Batches "
-             "(ScratchDB read-through) are tied by the correspondence check (exact key set, counts, regenerate_ref_count after every "
-             "operation, all exit kinds) and the oracle.",
+             "histories); regenerate_ref_count computes exactly these numbers (regenerate_is_true_count, keccak_embedded). Batches: "
+             "the invariant over the would-be-committed view is established on entry, preserved by every batch operation and turned "
+             "into the plain invariant by a normal exit (C05.batch_begin_invariant / batch_op_invariant / batch_commit_exact); an "
+             "aborted block restores the world (C05.abort_restores_world). The raw-level transcription of the write path refines the "
+             "effect layer (Raw.set_refines / delete_refines). Tie: exact key set, counts, regenerate_ref_count after every operation.",
         technique="Lean 4 proof (structural induction, balance invariant) + correspondence check",
         design_ref="6/C06"),
     "C03": dict(
